@@ -916,7 +916,14 @@ class _State:
         self.mode = 'r+'
         if k == 'truncate' and op.get('by', 'handle') != 'handle':
             op = dict(op, by='handle')
-        getattr(self, 'do_' + (k if not k.startswith('meta_') else 'meta'))(op)
+        # "after switching the handle to 'r+' the same operations succeed": judged for the operations that had to be
+        # refused in 'r'; whether any other call is accepted is C03's/C04's subject
+        if must:
+            self.oracles.add('outcome')
+        try:
+            getattr(self, 'do_' + (k if not k.startswith('meta_') else 'meta'))(op)
+        finally:
+            self.oracles.discard('outcome')
         if self.h is not None and op.get('back', True):
             self.h.accessmode = 'r'
             self.mode = 'r'
